@@ -30,15 +30,16 @@ META = {
                   'communicate put together are the command + send terminator, any terminator), send_plan_one_line (wait_before != 0, terminator of '
                   'one byte: every send is exactly one line), comm_plan_paced (a pause of wait_before before EVERY send of the plan), '
                   'connect_targets_same / reconnect_same_target (every connect - first and reconnects - goes to the same port: uri, else class '
-                  'default_settings, else SECoP default; the settings are only read); step level wait_before_partial.  Every clause is judged by its Lean monitor on every run of the real StringIO/BytesIO under the '
+                  'default_settings, else SECoP default; the settings are only read).  Transaction model, every accepted run: wait_before_paced_run / wait_before_paced '
+                  '(= wait_before_paced_statement, the monitor form: every send is preceded by a sleep of wait_before of its caller with no send of that caller in between).  Every clause is judged by its Lean monitor on every run of the real StringIO/BytesIO under the '
                   'deterministic scheduler (every access of a thread to shared state is a scheduling point), and every run is replayed through '
                   'the model (0 rejected events).',
     'level_note': 'Trusted: Lean kernel + axioms propext/Classical.choice/Quot.sound; the scripted device behind fake `socket`/`select` modules '
                   '(the REAL AsynTcp - address resolution, connect, send, recv, flush_recv, disconnect - runs in every scenario; only sockets, select and '
                   'kernel buffering are replaced); a command that goes out as several sends (wait_before with several lines) is NOT in the transaction '
                   'model: such runs are judged by all monitors (requests read line by line, reply windows from the first line) and compared with the '
-                  'glue model commPlan, wait_before_paced_statement (the pause, for the transaction model) is not proved at run level; three clauses are proved in the window form of their '
-                  'monitors (transaction_protected, delays_honoured, state_not_overwritten), two more have a proved monitor soundness '
+                  'glue model commPlan; four clauses are proved in the window form of their '
+                  'monitors (transaction_protected, delays_honoured, state_not_overwritten, wait_before_paced), two more have a proved monitor soundness '
                   '(multicomm_atomic, exchange_atomic); the other run-level theorems are stated at the events where the facts arise, their link '
                   'to the `ret`-window form of the monitors is by the model\'s `ret` guard, not a separate theorem (the `*_statement` definitions '
                   'keep the monitor forms); with an identification configured state_visible_run (closed_visible_run is the general form), '
